@@ -28,9 +28,16 @@ Recent(h) == NCalls = 0 \/ h = HL        \* connectedness: every new call uses t
 Live   == IF NCalls = 0 THEN TRUE ELSE heap[Len(heap)].kind # "X"     \* nothing is built on a raised call
 
 (* ---- prediction about one object ---- *)
+\* ordered variable lists for compiled callables: every permutation of the variables used, and every
+\* permutation of a superset with one foreign variable (small cases); the harness adds rotations for larger ones
+VLists(vs) ==
+    IF Cardinality(vs) > 3 THEN {}
+    ELSE LET foreign == IF AllNames \ vs = {} THEN {} ELSE {CHOOSE n \in AllNames \ vs : TRUE} IN
+         SetToSeqs(vs) \cup (IF Cardinality(vs) <= 2 /\ foreign # {} THEN SetToSeqs(vs \cup foreign) ELSE {})
 ScalarPred(t) ==
     [den  |-> t,
      vars |-> TVars(t),
+     Vs   |-> IF "V" \in Want THEN VLists(TVars(t)) ELSE {},
      D    |-> IF "D" \in Want THEN [v \in AllNames |-> DS(t, v)] ELSE <<>>,
      H    |-> IF "H" \in Want THEN [vw \in (TVars(t) \X TVars(t)) |-> H(t, vw[1], vw[2])] ELSE <<>>,
      nf   |-> IF "nf" \in Want THEN QNF(t) ELSE <<>>]
@@ -39,7 +46,7 @@ Predict(o) ==
 
 Do(c) == /\ calls' = Append(calls, c)
          /\ heap'  = Append(heap, Apply(c, FH))
-         /\ pred'  = Predict(heap'[Len(heap')])
+         /\ pred'  = Append(pred, Predict(heap'[Len(heap')]))     \* aligned with heap
 
 K(o, ks) == FH[o].kind \in ks
 C2(c, a, b, op)        == Call(c, a, b, op, NoLit, 0, 0, 0, "")
